@@ -23,8 +23,12 @@ from .contracts import havoc_value
 item_key = F("item_key", Val, IntS, Val)        # i-th key of a mapping (an arbitrary fixed enumeration)
 item_val = F("item_val", Val, IntS, Val)
 key_index = F("key_index", Val, Val, IntS)      # position of a key in that enumeration
-seq_at = F("seq_at", Val, IntS, Val)            # i-th element of a plain sequence
-plain_len = F("plain_len", Val, IntS)
+plain_len = bs.list_len                         # ONE vocabulary for every list-like value
+
+
+def seq_at(t, i):
+    """i-th element of a list-like value."""
+    return bs.list_get(t, VInt(i))
 
 
 class Seq:
